@@ -34,6 +34,10 @@ pub fn rust_ty(t: &Ty, decls: &mut Vec<String>) -> String {
             let ks = match k {
                 KeyTy::Str => "String".to_string(),
                 KeyTy::SpannedStr => "toml::Spanned<String>".to_string(),
+                KeyTy::NewtypeSpanned(n) => {
+                    decls.push(format!("struct {n}(toml::Spanned<String>);"));
+                    n.clone()
+                }
                 KeyTy::UnitVariant(n, vs) => {
                     decls.push(format!("enum {n} {{ {} }}", vs.iter().map(|v| format!("#[serde(rename = {v:?})] _{}", ident(v))).collect::<Vec<_>>().join(", ")));
                     n.clone()
